@@ -69,7 +69,7 @@ def run_harness(job):
         funcs = set()
 
         def explore(tag_base, max_paths, collect):
-            ex = core.Explorer(timeout_ms=cfg["branch_timeout_ms"], tag_base=tag_base, max_paths=max_paths)
+            ex = core.Explorer(timeout_ms=spec.get("branch_timeout_ms", cfg["branch_timeout_ms"]), tag_base=tag_base, max_paths=max_paths)
             holder = {}
             sigs = []
             first = [True]
